@@ -61,6 +61,9 @@ def plan(tier, seed):
         ch.append({'k': 'prefix', 'lo': lo, 'hi': min(n, lo + step), 'pos': ['c'] if tier == 'quick' else ['a', 'c', 'g']})
         if tier == 'quick':
             ch.append({'k': 'corrupt', 'lo': lo, 'hi': min(n, lo + step), 'vals': 'quick', 'modes': ['a', 'l'] + (['n'] if lo < 72 else [])})
+            # every other mode has its own error handling: give each the exception classes that 00 / FF corruptions raise
+            ch.append({'k': 'corrupt', 'lo': lo, 'hi': min(n, lo + step), 'vals': 'zero-ff',
+                       'modes': ['plid_junk', 'plid_good', 'src', 'srcx', 'lx', 'ax', 'j']})
         else:
             for vlo in range(0, 256, 64):
                 ch.append({'k': 'corrupt', 'lo': lo, 'hi': min(n, lo + step), 'vals': [vlo, vlo + 64],
@@ -291,7 +294,8 @@ def run_chunk(chunk):
         elif k == 'corrupt':
             from mc.checks.c05 import repl_values
             for off in range(chunk['lo'], chunk['hi']):
-                for v in repl_values(base[off], chunk['vals']):
+                for v in ([x for x in (0x00, 0xff) if x != base[off]] if chunk['vals'] == 'zero-ff'
+                          else repl_values(base[off], chunk['vals'])):
                     for mode in chunk['modes']:
                         _do(res, env, [('c', ('set', off, v))], mode, True, step=4999)
         elif k == 'struct':
